@@ -27,6 +27,7 @@ class Op:
         self.exchanges = []
         self.outcome: Optional[tuple] = None
         self.wall_lo = self.wall_hi = 0.0
+        self.walls: List[float] = []
         self.connected_before = None
         self.connected_after = None
         self.sock_closed_after = None
@@ -65,6 +66,7 @@ class Client:
             w = self.sim.wall()
             self.cur.wall_lo = min(self.cur.wall_lo, w)
             self.cur.wall_hi = max(self.cur.wall_hi, w)
+            self.cur.walls.append(w)
 
     # hooks called from the fake network
     def on_socket(self, sock):
@@ -222,6 +224,7 @@ async def exec_step(cl: Client, st: Dict[str, Any]):
     cl.ops.append(op)
     op.seq0 = sim.seq
     op.wall_lo = op.wall_hi = sim.wall()
+    op.walls.append(sim.wall())
     op.connected_before = bool(cl.api.connected)
     cl.reply_plan = [dict(r) if r else None for r in st.get("replies", [])]
     cl.send_plan = list(st.get("sends", []))
@@ -266,6 +269,7 @@ async def exec_step(cl: Client, st: Dict[str, Any]):
         cl._wall_final = sim.wall()
     op.wall_hi = max(op.wall_hi, sim.wall())
     op.wall_lo = min(op.wall_lo, sim.wall())
+    op.walls.append(sim.wall())
     op.connected_after = bool(cl.api.connected)
     op.seq1 = sim.seq
     if kind in LIFECYCLE:
